@@ -10,24 +10,14 @@ Definition is_entry (kv : str * option str) : bool := match snd kv with Some _ =
 Definition entry_keys (a : list (str * option str)) : list str := map fst (filter is_entry a).
 Definition section_keys (a : list (str * option str)) : list str := map fst (filter (fun kv => negb (is_entry kv)) a).
 
-Definition keys_good (a : list (str * option str)) : Prop :=
-  NoDup (entry_keys a) /\ forall K, In K (entry_keys a) -> ~ In K (section_keys a).
-
-Lemma keys_split a K : In K (map fst a) -> In K (entry_keys a) \/ In K (section_keys a).
-Proof.
-  intros H. apply in_map_iff in H. destruct H as ([k v] & <- & Hin). unfold entry_keys, section_keys.
-  destruct (is_entry (k, v)) eqn:E.
-  - left. apply in_map_iff. exists (k, v). split; [reflexivity|]. apply filter_In. tauto.
-  - right. apply in_map_iff. exists (k, v). split; [reflexivity|]. apply filter_In. rewrite E. tauto.
-Qed.
+(* cfc9e38: a section heading no longer erases an entry of the same name, so all that is needed is that no two
+   ENTRIES share a (lower-cased) key; a heading may be named like an entry ("[pre] b = .." and "[pre:B]") *)
+Definition keys_good (a : list (str * option str)) : Prop := NoDup (entry_keys a).
 
 Lemma keys_good_tail kv a : keys_good (kv :: a) -> keys_good a.
 Proof.
-  unfold keys_good, entry_keys, section_keys. intros [H1 H2]. cbn [filter] in *. split.
-  - destruct (is_entry kv); [cbn in H1; inversion H1; assumption|assumption].
-  - intros K HK HS. apply (H2 K).
-    + destruct (is_entry kv); [right; exact HK|exact HK].
-    + destruct (is_entry kv); cbn [negb]; [exact HS|right; exact HS].
+  unfold keys_good, entry_keys. cbn [filter]. destruct (is_entry kv); [|tauto].
+  cbn [map]. intros H. inversion H; assumption.
 Qed.
 
 Lemma lookup_entry a : forall d K v, keys_good a -> In (K, Some v) a -> dict_get (set_all a d) K = Some (Some v).
@@ -35,12 +25,12 @@ Proof.
   induction a as [|[k0 v0] a IH]; intros d K v Hg Hin; [contradiction|].
   destruct Hin as [Heq|Hin].
   - inversion Heq; subst. unfold set_all. cbn [fold_left fst snd].
-    destruct Hg as [H1 H2]. unfold entry_keys, section_keys in *. cbn [filter is_entry snd map fst negb] in *.
-    inversion H1 as [|? ? Hni _]; subst.
-    rewrite (dict_get_set_all_notin a).
-    + rewrite dict_get_set, str_eqb_refl. reflexivity.
-    + intros Hk. apply keys_split in Hk. destruct Hk as [Hk|Hk]; [exact (Hni Hk)|].
-      apply (H2 K); [left; reflexivity|exact Hk].
+    unfold keys_good, entry_keys in Hg. cbn [filter is_entry snd map fst] in Hg.
+    inversion Hg as [|? ? Hni _]; subst.
+    apply (dict_get_set_all_kept a).
+    + intros y Hy. apply Hni. apply in_map_iff. exists (K, Some y). split; [reflexivity|].
+      apply filter_In. split; [exact Hy|reflexivity].
+    + apply dict_get_put_entry.
   - unfold set_all. cbn [fold_left]. apply IH; [apply (keys_good_tail _ _ Hg)|exact Hin].
 Qed.
 
@@ -63,14 +53,10 @@ Proof.
   constructor; [|apply IH; exact H2]. intros Hin. apply mem_b_In in Hin. rewrite Hin in H1. discriminate H1.
 Qed.
 
-Definition keys_good_b (a : list (str * option str)) : bool :=
-  nodup_b (entry_keys a) && forallb (fun K => negb (mem_b K (section_keys a))) (entry_keys a).
+Definition keys_good_b (a : list (str * option str)) : bool := nodup_b (entry_keys a).
 
 Lemma keys_good_b_ok a : keys_good_b a = true -> keys_good a.
-Proof.
-  unfold keys_good_b, keys_good. intros H. apply andb_true_iff in H. destruct H as [H1 H2]. split; [apply nodup_b_NoDup; exact H1|].
-  intros K HK HS. rewrite forallb_forall in H2. specialize (H2 K HK). apply mem_b_In in HS. rewrite HS in H2. discriminate H2.
-Qed.
+Proof. apply nodup_b_NoDup. Qed.
 
 (* ---- strrchr (name, ':') ---- *)
 Lemma rsplit_colon_some s : forall acc p b, rsplit_colon s acc = Some (p, b) -> acc ++ s = p ++ cCOLON :: b.
